@@ -14,14 +14,16 @@ def _jobs(tier):
     jobs = []
     for fl in ("asan", "rel"):
         for k in range(1, 13):
-            jobs.append(dict(sub="entry", count=geo(k, 1200, 6, 20) * mult, fix=dict(k=k), flavour=fl))
+            jobs.append(dict(sub="entry", count=geo(k, 1200, 6, 20) * mult, fix=dict(k=k, nrows=(1, 4), ncols=(1, 4)), flavour=fl))
             jobs.append(dict(sub="vec", count=geo(k, 1200, 6, 20) * mult, fix=dict(k=k), flavour=fl))
         jobs.append(dict(sub="kernels", count=5000 * mult, fix=dict(logm=(0, 7)), flavour=fl, split=2))
         jobs.append(dict(sub="kernels", count=500 * mult, fix=dict(logm=(8, 12)), flavour=fl))
         # the largest dimensions (alignment-sensitive fast paths, table sizes): few cases, every entry point
         jobs.append(dict(sub="kernels", count=120 * mult, fix=dict(logm=(13, 16)), flavour=fl, split=2))
         for k in range(13, 17):
-            jobs.append(dict(sub="entry", count=36 * mult, fix=dict(k=k), flavour=fl))
+            jobs.append(dict(sub="entry", count=36 * mult, fix=dict(k=k, nrows=(1, 4), ncols=(1, 4)), flavour=fl))
+        # large prepared matrices (up to 32 x 32 polynomials) at small N: object sizes and scratch sizes that depend on nrows*ncols
+        jobs.append(dict(sub="entry", count=1500 * mult, fix=dict(k=(3, 6), e=(8, 10), mtype=0), flavour=fl, split=2))
     jobs.append(dict(sub="objects", enum=True, fix=dict(logn=(1, 14), cfg=(0, 1), size=(0, 3), nrows=(1, 2), ncols=(1, 2)), flavour="asan"))
     return jobs
 
